@@ -26,7 +26,7 @@ pub fn derive(input: &Input) -> TokenStream {
 
     let fields_names_hygienic = input.fields.iter()
         .enumerate()
-        .map(|(i, _)| Ident::new(&format!("___soa_derive_private_{}", i), Span::call_site()))
+        .map(|(i, _)| Ident::new(&format!("___soa_derive_private_{}", i), Span::mixed_site()))
         .collect::<Vec<_>>();
 
     let first_field = &fields_names[0];
